@@ -7,6 +7,7 @@ from typing import Any, ClassVar
 
 from tree_sitter import Node
 
+from nix_manipulator.exceptions import ResolutionError
 from nix_manipulator.expressions.assertion import Assertion
 from nix_manipulator.expressions.binding import Binding
 from nix_manipulator.expressions.expression import NixExpression
@@ -194,7 +195,11 @@ class NixSourceCode:
             visited.add(id(target))
 
             if scopes is None:
-                scopes = scopes_for_owner(target)
+                try:
+                    scopes = scopes_for_owner(target)
+                except ResolutionError:
+                    # An unresolvable `with` environment is opaque, not fatal.
+                    scopes = ()
 
             def resolve_nested(expr, *, scopes=scopes):
                 return resolve_from_expr(expr, scopes=scopes)
@@ -228,8 +233,11 @@ class NixSourceCode:
                             "Top-level expression must be an attribute set"
                         ) from exc
                 case WithStatement():
-                    body_scopes = scopes_for_owner(target) or scopes
-                    attach_resolution_context(target.body, owner=target)
+                    try:
+                        body_scopes = scopes_for_owner(target) or scopes
+                        attach_resolution_context(target.body, owner=target)
+                    except ResolutionError:
+                        body_scopes = scopes
                     return resolve_from_expr(target.body, scopes=body_scopes)
                 case Identifier():
                     identifier_scopes = scopes or scopes_for_owner(target)
